@@ -55,6 +55,11 @@ def check(
     else:
         debug_info = None
 
+    # Debugging operations emit no code when assembling or preprocessing, so they must not
+    # be counted when relative branch offsets are computed (get_labels skips them too).
+    if settings.mode in ("assemble", "preprocess"):
+        oplist = [op for op in oplist if not isinstance(op, DebuggingOperation)]
+
     oplist, preprocess_messages = convert_ops(oplist, symbol_table)
     messages.extend(preprocess_messages)
 
